@@ -138,6 +138,10 @@ def oracle(w, obs, meta, out, counts):
                 break
         if o.complete != (b.status == "EC"):
             v("C11.a", "complete", "bet %s: local complete=%s status=%s, exchange status %s" % (b.bet_id, o.complete, o.status.name, b.status))
+        elif o.status.name == "PENDING":
+            # the order knows its bet (acknowledged by a reply or by the stream) and nothing is outstanding: it is
+            # not "awaiting acknowledgement" any more (exposure skips PENDING orders)
+            v("C11.a", "pending-with-bet-id", "bet %s (%s at the exchange): local order still PENDING at quiescence" % (b.bet_id, b.status))
     # a) local orders that claim a bet the exchange does not have / local live orders without a bet
     for m, o in local:
         if o.bet_id is not None and str(o.bet_id) not in ex.bets:
